@@ -730,7 +730,11 @@ class Rem:
     `timeout` (else None: it is positive whenever it is not negative)"""
     def __init__(self, e, tr):
         self.e, self.tr = e, tr
-Q_START = 'if self._thread is None:\n    self._start_thread()'
+# `self._thread is None` is compiled as the local test ThreadJ (jump when a feeder thread exists) and the
+# call `self._start_thread()` as the scheduling point StartThread, wherever the code puts them (inside
+# or outside `with self._notempty`); Queue._start_thread itself is checked against START_EXPECTED
+Q_START_CALL = 'self._start_thread()'
+Q_THREAD_TESTS = ('self._thread is None', 'self._thread is not None')
 
 
 class QCompiler(Compiler):
@@ -792,8 +796,11 @@ class QCompiler(Compiler):
             self.emit('Mov %d 0' % rem.e)
             self.emit('Mov %d %d' % (rem.tr, 1 if s.value.value > 0 else 0))
             return
-        if txt == Q_START:
-            self.emit('Start')
+        if txt == Q_START_CALL and isinstance(fr.env.get('self'), Obj) \
+                and fr.env['self'].cls in ('Queue', 'JoinableQueue'):
+            # the body of Queue._start_thread (shape checked by gen_P_queue): buffer.clear(), create and
+            # start the feeder thread -- one scheduling point
+            self.emit('StartThread')
             return
         if isinstance(s, ast.Expr) and isinstance(s.value, ast.Call):
             c = s.value
@@ -891,6 +898,17 @@ class QCompiler(Compiler):
         neg, inner = False, test
         while isinstance(inner, ast.UnaryOp) and isinstance(inner.op, ast.Not):
             neg, inner = not neg, inner.operand
+        if ast.unparse(inner) in Q_THREAD_TESTS and isinstance(fr.env.get('self'), Obj) \
+                and fr.env['self'].cls in ('Queue', 'JoinableQueue'):
+            true_when_none = (ast.unparse(inner) == Q_THREAD_TESTS[0]) != neg
+            if true_when_none:
+                self.emit('ThreadJ %s', target)          # a feeder thread exists: the test is false
+            else:
+                cont = self.label()
+                self.emit('ThreadJ %s', cont)
+                self.emit('Jmp %s', target)
+                self.place(cont)
+            return
         if ast.unparse(inner) == 'timeout < 0' and isinstance(fr.env.get('timeout'), Rem):
             # the remaining time is negative: the deadline has passed (register set by Clock)
             self.emit(('Jnz %d %%s' if neg else 'Jz %d %%s') % fr.env['timeout'].e, target)
@@ -1066,6 +1084,35 @@ FEED_ARGS_EXPECTED = ("(self._buffer, self._notempty, self._send_bytes, self._wl
                       "self._writer.close, self._ignore_epipe, self._sem)")      # queue_sem = the capacity semaphore
 FEED_ARGS_OLD = ("(self._buffer, self._notempty, self._send_bytes, self._wlock, "
                  "self._writer.close, self._ignore_epipe)")
+# Queue._start_thread is not compiled either: apart from its debug() lines it must begin with exactly these
+# statements (the model's StartThread = clear the buffer, then create, record and start the feeder thread), and
+# nothing after them may touch self._thread / self._buffer again
+START_EXPECTED = ("self._buffer.clear()\n"
+                  "self._thread = threading.Thread(target=Queue._feed, args=%s, name='QueueFeederThread')\n"
+                  "self._thread.daemon = True\n"
+                  "self._thread.start()")
+
+
+def check_start_thread(st, repaired):
+    body = [n for n in st.body
+            if not (isinstance(n, ast.Expr) and isinstance(n.value, ast.Constant))
+            and not (isinstance(n, ast.Expr) and isinstance(n.value, ast.Call) and ast.unparse(n.value.func) == 'debug')]
+    head = '\n'.join(ast.unparse(n) for n in body[:4])
+    if head != START_EXPECTED % (FEED_ARGS_EXPECTED if repaired else FEED_ARGS_OLD):
+        raise TranslateError('Queue._start_thread changed: it no longer is clear(); Thread(target=Queue._feed, ...); '
+                             'daemon; start(): %r' % head[:300])
+    for n in body[4:]:
+        for m in ast.walk(n):
+            if isinstance(m, (ast.Assign, ast.AugAssign, ast.Delete)):
+                tgts = m.targets if isinstance(m, (ast.Assign, ast.Delete)) else [m.target]
+                for t in tgts:
+                    if ast.unparse(t) in ('self._thread', 'self._buffer', 'self._notempty'):
+                        raise TranslateError('Queue._start_thread assigns %s after starting the thread' % ast.unparse(t))
+            if isinstance(m, ast.Call) and isinstance(m.func, ast.Attribute) and \
+                    ast.unparse(m.func.value) in ('self._buffer', 'self._thread') and m.func.attr != 'join':
+                raise TranslateError('Queue._start_thread calls %s after starting the thread' % ast.unparse(m.func))
+
+
 FEED_PARAMS_EXPECTED = ['buffer', 'notempty', 'send_bytes', 'writelock', 'close', 'ignore_epipe', 'queue_sem']
 
 
@@ -1147,6 +1194,7 @@ def gen_P_queue(repo):
     kw = {k.arg: ast.unparse(k.value) for k in starts[0].keywords}
     if kw.get('target') != 'Queue._feed' or kw.get('args') != (FEED_ARGS_EXPECTED if repaired else FEED_ARGS_OLD):
         raise TranslateError('Queue._start_thread passes %r to the feeder' % kw)
+    check_start_thread(st, repaired)
     af, _ = q_src.method('Queue', '_after_fork')
     af_text = body_text(af)
     for need in ('self._notempty = threading.Condition(threading.Lock())', 'self._buffer = collections.deque()',
@@ -1174,8 +1222,9 @@ def gen_P_queue(repo):
             raise TranslateError('SimpleQueue.__init__ lost %r' % need)
     out = ['(* GENERATED on every run by translate/kernels/semprog.py from billiard/queues.py,',
            '   billiard/synchronize.py (working tree), harness/c16_clients.py and harness/c16_fakes.py.',
-           '   p_feed is a hand translation emitted only while Queue._feed matches its expected text%s. *)'
+           '   p_feed is a hand translation emitted only while Queue._feed matches its expected text%s;'
            % ('' if repaired else ' (the feeder BEFORE the repair: handler outside the loop)'),
+           '   StartThread stands for the body of Queue._start_thread (checked against its expected shape). *)',
            'From Coq Require Import ZArith List Bool.',
            'From BV Require Import Model.SemProg Model.QueueProg.',
            'Import ListNotations.',
